@@ -66,7 +66,13 @@ theorem nodup_of_sorted {l : List Nat} (h : l.Pairwise (· < ·)) : l.Nodup :=
 /-! ### `Registry.Purge` -/
 
 theorem purge_live_of_not_dead (s : St) (i : Nat) (h : dead s i = false) : (purge s).live i = s.live i := by
-  simp [purge, h]
+  show (match s.live i with
+    | some hb => if expired s.d s.now hb then none else some hb
+    | none => none) = s.live i
+  unfold dead at h
+  cases hl : s.live i with
+  | none => rfl
+  | some hb => rw [hl] at h; simp only at h; simp [h]
 
 theorem purge_inv' {s : St} (h : Inv' s) : Inv' (purge s) where
   regLiveO := by
@@ -409,5 +415,456 @@ theorem reachable_step {s : St} (h : Reachable s) (a : Act) : Reachable (step s 
   obtain ⟨w, d, c0, acts, rfl⟩ := h
   refine ⟨w, d, c0, acts ++ [a], ?_⟩
   rw [run_fst_append]; rfl
+
+/-! ### what a deployment decision looks like -/
+
+/-- the facts about a `Deploy` decided by `evaluateClusterStatus` in (purged) state `s` -/
+def DepFacts (s s' : St) (dep : Dep) : Prop :=
+  dep.ops = s'.asmOps ∧ dep.srs = s'.asmSrs ∧ dep.ops.length = s.w ∧ dep.srs.length = s.w ∧ dep.ops.Nodup ∧
+  dep.srs.Nodup ∧ (∀ i ∈ dep.ops, i ∈ s'.ops ∧ alive s' i) ∧ (∀ i ∈ dep.srs, i ∈ s'.srs ∧ alive s' i) ∧
+  s'.status = .starting ∧ dep.ck = s.store.current ∧ dep.ck = s'.store.current ∧ s'.startCk = dep.ck
+
+theorem spawn_dep {s : St} (h : Inv' s) (hao : ∀ i ∈ s.ops, alive s i) (has : ∀ i ∈ s.srs, alive s i) (dep : Dep)
+    (hd : (spawn s).2 = some dep) : DepFacts s (spawn s).1 dep := by
+  unfold spawn at hd ⊢
+  split at hd
+  · cases hd
+  · rename_i hlen
+    have hlen' : s.w ≤ s.srs.length ∧ s.w ≤ s.ops.length := by
+      simp only [Bool.or_eq_true, decide_eq_true_eq, not_or, Nat.not_lt] at hlen; exact hlen
+    rw [if_neg hlen]
+    simp only [Option.some.injEq] at hd
+    subst hd
+    refine ⟨rfl, rfl, by simp [List.length_take]; omega, by simp [List.length_take]; omega,
+      nodup_of_sorted (List.Pairwise.sublist (List.take_sublist _ _) h.sortedO),
+      nodup_of_sorted (List.Pairwise.sublist (List.take_sublist _ _) h.sortedS), ?_, ?_, rfl, rfl, rfl, rfl⟩
+    · intro i hi; exact ⟨List.mem_of_mem_take hi, hao i (List.mem_of_mem_take hi)⟩
+    · intro i hi; exact ⟨List.mem_of_mem_take hi, has i (List.mem_of_mem_take hi)⟩
+
+theorem evalStatus_dep {s : St} (h : Inv' s) (hao : ∀ i ∈ s.ops, alive s i) (has : ∀ i ∈ s.srs, alive s i)
+    (dep : Dep) (hd : (evalStatus s).2 = some dep) : DepFacts s (evalStatus s).1 dep := by
+  unfold evalStatus at hd ⊢
+  split
+  · rename_i hst; rw [hst] at hd; simp only at hd; split at hd <;> cases hd
+  · rename_i hst; rw [hst] at hd; cases hd
+  · rename_i hst; rw [hst] at hd; exact spawn_dep h hao has dep hd
+  · rename_i hst; rw [hst] at hd; exact spawn_dep h hao has dep hd
+
+theorem evaluate_dep {s : St} (h : Inv' s) (dep : Dep) (hd : (evaluate s).2 = some dep) :
+    DepFacts s (evaluate s).1 dep :=
+  evalStatus_dep (purge_inv' h) (purge_alive h).1 (purge_alive h).2 dep hd
+
+theorem barrier_dep (s : St) (i sr id : Nat) : (barrier s i sr id).2.dep? = none := by
+  unfold barrier
+  split
+  · rfl
+  · split
+    · rfl
+    · split
+      · rfl
+      · unfold register
+        split
+        · rfl
+        · split
+          · split <;> rfl
+          · rfl
+
+/-- only the tasks that end with `evaluateClusterStatus` can decide a deployment -/
+theorem step_dep_src {s : St} (h : Inv s) (a : Act) (dep : Dep) (hd : (step s a).2.dep? = some dep) :
+    ∃ s1, Inv' s1 ∧ s1.w = s.w ∧ s1.store = s.store ∧ step s a = withStatus (evaluate s1) := by
+  cases a with
+  | regO i => exact ⟨_, inv'_regO h.toInv' i, rfl, rfl, rfl⟩
+  | regS i => exact ⟨_, inv'_regS h.toInv' i, rfl, rfl, rfl⟩
+  | deregO i => exact ⟨_, inv'_deregO h.toInv' i, rfl, rfl, rfl⟩
+  | deregS i => exact ⟨_, inv'_deregS h.toInv' i, rfl, rfl, rfl⟩
+  | adv n => cases hd
+  | deployOk => simp only [step] at hd; split at hd <;> cases hd
+  | deployFail k =>
+    simp only [step] at hd ⊢
+    split at hd
+    · cases hd
+    · rename_i hs
+      rw [if_neg hs]
+      exact ⟨_, inv'_deployFail h.toInv' _, rfl, rfl, rfl⟩
+  | tick =>
+    simp only [step] at hd
+    split at hd
+    · cases hd
+    · split at hd <;> cases hd
+  | ackS i id => cases hd
+  | ackO i id => cases hd
+  | bar i sr id => simp only [step, barrier_dep] at hd; cases hd
+
+theorem step_dep {s : St} (h : Inv s) (a : Act) (dep : Dep) (hd : (step s a).2.dep? = some dep) :
+    dep.ops = (step s a).1.asmOps ∧ dep.srs = (step s a).1.asmSrs ∧
+    dep.ops.length = s.w ∧ dep.srs.length = s.w ∧ dep.ops.Nodup ∧ dep.srs.Nodup ∧
+    (∀ i ∈ dep.ops, i ∈ (step s a).1.ops ∧ alive (step s a).1 i) ∧
+    (∀ i ∈ dep.srs, i ∈ (step s a).1.srs ∧ alive (step s a).1 i) ∧
+    (step s a).1.status = .starting := by
+  obtain ⟨s1, h1, hw, _, heq⟩ := step_dep_src h a dep hd
+  rw [heq] at hd ⊢
+  obtain ⟨a1, a2, a3, a4, a5, a6, a7, a8, a9, _⟩ := evaluate_dep h1 dep hd
+  exact ⟨a1, a2, hw ▸ a3, hw ▸ a4, a5, a6, a7, a8, a9⟩
+
+theorem step_dep_ck {s : St} (h : Inv s) (a : Act) (dep : Dep) (hd : (step s a).2.dep? = some dep) :
+    dep.ck = s.store.current ∧ dep.ck = (step s a).1.store.current ∧ (step s a).1.startCk = dep.ck := by
+  obtain ⟨s1, h1, _, hst, heq⟩ := step_dep_src h a dep hd
+  rw [heq] at hd ⊢
+  obtain ⟨_, _, _, _, _, _, _, _, _, b1, b2, b3⟩ := evaluate_dep h1 dep hd
+  exact ⟨hst ▸ b1, b2, b3⟩
+
+/-! ### `evaluateClusterStatus` of a Running job -/
+
+theorem evalStatus_running {s : St} (h : s.status = .running) :
+    (evalStatus s).1 = if healthy s then s else { s with status := .paused, ticker := false } := by
+  unfold evalStatus
+  rw [h]
+  simp only
+  split <;> rfl
+
+theorem membership_running {s : St} (h : Inv s) (hr : s.status = .running) (a : Act) (hm : a.membership = true) :
+    ((step s a).1.status = .running ∧ healthy (step s a).1 = true ∧ (step s a).1.ticker = true) ∨
+    ((step s a).1.status = .paused ∧ healthy (step s a).1 = false ∧ (step s a).1.ticker = false) := by
+  have ht : s.ticker = true := h.tickRun.mpr hr
+  have key : ∀ s1 : St, s1.status = .running → s1.ticker = true →
+      ((evaluate s1).1.status = .running ∧ healthy (evaluate s1).1 = true ∧ (evaluate s1).1.ticker = true) ∨
+      ((evaluate s1).1.status = .paused ∧ healthy (evaluate s1).1 = false ∧ (evaluate s1).1.ticker = false) := by
+    intro s1 h1 t1
+    unfold evaluate
+    rw [evalStatus_running (s := purge s1) h1]
+    cases hh : healthy (purge s1)
+    · right; rw [if_neg (by simp)]; exact ⟨rfl, hh, rfl⟩
+    · left; rw [if_pos rfl]; exact ⟨h1, hh, t1⟩
+  cases a with
+  | regO i => exact key _ hr ht
+  | regS i => exact key _ hr ht
+  | deregO i => exact key _ hr ht
+  | deregS i => exact key _ hr ht
+  | _ => cases hm
+
+theorem evaluate_running_frame {s : St} (h : s.status = .running) :
+    (evaluate s).1.store = s.store ∧ (evaluate s).1.procs = s.procs ∧ (evaluate s).1.asmOps = s.asmOps ∧
+    (evaluate s).1.asmSrs = s.asmSrs := by
+  unfold evaluate
+  rw [evalStatus_running (s := purge s) h]
+  split <;> exact ⟨rfl, rfl, rfl, rfl⟩
+
+theorem deployOk_clean {s : St} (h : Inv s) (hs : s.status = .starting) :
+    (step s .deployOk).1.store.pending = none ∧
+    (∀ i ∈ (step s .deployOk).1.asmOps,
+      ((step s .deployOk).1.procs i).inflight = none ∧ ((step s .deployOk).1.procs i).deployed = true ∧
+      ((step s .deployOk).1.procs i).srcs = (step s .deployOk).1.asmSrs) ∧
+    ∃ st, (step s .deployOk).2 = .started st s.store.current s.asmSrs false [] := by
+  have hc := h.startClean hs
+  let t : St := { s with procs := deployProcs s none, status := .running, ticker := true }
+  have hstep : step s .deployOk = ((evaluate t).1, .started (evaluate t).1.status s.startCk s.asmSrs
+      (evaluate t).1.store.pending.isSome
+      ((evaluate t).1.asmOps.filter fun i => ((evaluate t).1.procs i).inflight.isSome)) := by
+    simp only [step, hs, ne_eq, not_true_eq_false, if_false]
+    rfl
+  obtain ⟨e1, e2, e3, e4⟩ := evaluate_running_frame (s := t) rfl
+  have e1' : (evaluate t).1.store = s.store := e1
+  have e2' : (evaluate t).1.procs = deployProcs s none := e2
+  have e3' : (evaluate t).1.asmOps = s.asmOps := e3
+  have e4' : (evaluate t).1.asmSrs = s.asmSrs := e4
+  have hproc : ∀ i ∈ s.asmOps, deployProcs s none i = { deployed := true, srcs := s.asmSrs, inflight := none } :=
+    fun i hi => deployProcs_mem s none i (by simpa using hi) (by simp)
+  rw [hstep]
+  simp only [e1', e2', e3', e4']
+  refine ⟨hc.1, ?_, ⟨(evaluate t).1.status, ?_⟩⟩
+  · intro i hi; rw [hproc i hi]; exact ⟨rfl, rfl, rfl⟩
+  · have hf : (s.asmOps.filter fun i => (deployProcs s none i).inflight.isSome) = [] := by
+      apply List.filter_eq_nil_iff.mpr
+      intro i hi; rw [hproc i hi]; simp
+    rw [hf, hc.1, hc.2]
+    rfl
+
+/-! ### the current checkpoint id only grows -/
+
+theorem evaluate_current (s : St) : (evaluate s).1.store.current = s.store.current ∧
+    (evaluate s).1.store.counter = s.store.counter := by
+  unfold evaluate evalStatus
+  have hs : ∀ t : St, (spawn t).1.store.current = t.store.current ∧ (spawn t).1.store.counter = t.store.counter := by
+    intro t; unfold spawn; split <;> exact ⟨rfl, rfl⟩
+  split
+  · split <;> exact ⟨rfl, rfl⟩
+  · exact ⟨rfl, rfl⟩
+  · exact hs _
+  · exact hs _
+
+theorem AckStep.current {st st' : Store} (h : AckStep st st') :
+    st'.current = st.current ∨ ∃ p, st.pending = some p ∧ st'.current = some p.id := by
+  rcases h with e | ⟨p, p', hp, _, _, _, _, hcase⟩
+  · exact Or.inl (by rw [e])
+  · rcases hcase with ⟨_, hc⟩ | ⟨_, hc⟩
+    · exact Or.inl hc
+    · exact Or.inr ⟨p, hp, hc⟩
+
+theorem register_current (s : St) (i sr id rid : Nat) (waiting : List Nat) :
+    (register s i sr id rid waiting).1.store.current = s.store.current ∨
+    ∃ p, s.store.pending = some p ∧ (register s i sr id rid waiting).1.store.current = some p.id := by
+  unfold register
+  split
+  · exact Or.inl rfl
+  · split
+    · split
+      · rename_i st' pub heq
+        have hst : st' = (ackO s.store i rid).1 := by rw [heq]
+        simp only
+        rw [hst]
+        exact (ackO_ackStep s.store i rid).current
+      · exact Or.inl rfl
+    · exact Or.inl rfl
+
+theorem step_current (s : St) (a : Act) :
+    (step s a).1.store.current = s.store.current ∨
+    ∃ p, s.store.pending = some p ∧ (step s a).1.store.current = some p.id := by
+  cases a with
+  | regO i => exact Or.inl (evaluate_current _).1
+  | regS i => exact Or.inl (evaluate_current _).1
+  | deregO i => exact Or.inl (evaluate_current _).1
+  | deregS i => exact Or.inl (evaluate_current _).1
+  | adv n => exact Or.inl rfl
+  | deployOk =>
+    simp only [step]
+    split
+    · exact Or.inl rfl
+    · exact Or.inl (evaluate_current _).1
+  | deployFail k =>
+    simp only [step]
+    split
+    · exact Or.inl rfl
+    · exact Or.inl (evaluate_current _).1
+  | tick =>
+    simp only [step]
+    split
+    · exact Or.inl rfl
+    · split <;> exact Or.inl rfl
+  | ackS i id => exact (ackS_ackStep s.store i id).current
+  | ackO i id => exact (ackO_ackStep s.store i id).current
+  | bar i sr id =>
+    simp only [step]
+    unfold barrier
+    split
+    · exact Or.inl rfl
+    · split
+      · exact Or.inl rfl
+      · split
+        · exact Or.inl rfl
+        · exact register_current _ _ _ _ _ _
+
+theorem step_current_mono {s : St} (h : Inv s) (a : Act) (c : Nat) (hc : s.store.current = some c) :
+    ∃ c', (step s a).1.store.current = some c' ∧ c ≤ c' := by
+  rcases step_current s a with e | ⟨p, hp, e⟩
+  · exact ⟨c, by rw [e, hc], Nat.le_refl c⟩
+  · exact ⟨p.id, e, Nat.le_of_lt ((h.pendId p hp).2 c hc)⟩
+
+/-! ### bounded progress: one round of the current assembly publishes -/
+
+theorem filter_ne_head (x : Nat) (t : List Nat) (h : (x :: t).Nodup) : (x :: t).filter (· ≠ x) = t := by
+  have hx := List.nodup_cons.mp h
+  simp only [List.filter_cons, ne_eq, not_true_eq_false, decide_false, Bool.false_eq_true, if_false]
+  apply List.filter_eq_self.mpr
+  intro y hy
+  have : y ≠ x := fun e => hx.1 (e ▸ hy)
+  simpa using this
+
+/-- the source runners of the assembly acknowledge one after the other -/
+theorem run_ackS_all (n : Nat) : ∀ (L : List Nat) (s : St) (p : Pending), s.store.pending = some p → p.id = n →
+    (∀ x ∈ L, x ∈ p.expSrs) → p.waitOps ≠ [] →
+    (run s (L.map fun x => Act.ackS x n)).1 =
+      { s with store := { s.store with pending := some { p with waitSrs := p.waitSrs.filter (fun y => !L.contains y) } } } := by
+  intro L
+  induction L with
+  | nil =>
+    intro s p hp _ _ _
+    simp only [List.map_nil, run, List.contains_nil, Bool.not_false]
+    have hf : p.waitSrs.filter (fun _ => true) = p.waitSrs := List.filter_eq_self.mpr (by simp)
+    rw [hf]
+    show s = { s with store := { s.store with pending := some p } }
+    rw [← hp]
+  | cons x L ih =>
+    intro s p hp hid hexp hwo
+    simp only [List.map_cons, run]
+    have hx : p.expSrs.contains x = true := by simpa using hexp x (List.mem_cons_self ..)
+    have hstep : (step s (Act.ackS x n)).1 =
+        { s with store := { s.store with pending := some { p with waitSrs := p.waitSrs.filter (· ≠ x) } } } := by
+      simp only [step, ackS, hp, hid, ne_eq, not_true_eq_false, if_false, hx, Bool.not_true, Bool.false_eq_true, finish]
+      have : p.waitOps.isEmpty = false := by cases h : p.waitOps <;> simp_all
+      simp [this]
+    rw [hstep]
+    rw [ih _ { p with waitSrs := p.waitSrs.filter (· ≠ x) } rfl hid (fun y hy => hexp y (List.mem_cons_of_mem _ hy)) hwo]
+    simp only [List.filter_filter]
+    congr 4
+    apply List.filter_congr
+    intro y _
+    simp only [List.contains_cons, Bool.not_or, ne_eq, decide_not]
+    cases h1 : (y == x) <;> cases h2 : L.contains y <;> simp_all
+
+theorem setProc_setProc (f : Nat → OpProc) (i : Nat) (a b : OpProc) : setProc (setProc f i a) i b = setProc f i b := by
+  funext j; simp only [setProc]; split <;> rfl
+
+theorem setProc_self (f : Nat → OpProc) (i : Nat) (a : OpProc) : setProc f i a i = a := by simp [setProc]
+
+theorem setProc_other (f : Nat → OpProc) (i j : Nat) (a : OpProc) (h : j ≠ i) : setProc f i a j = f j := by
+  simp [setProc, h]
+
+theorem ackO_ok (st : Store) (i n : Nat) (p : Pending) (hp : st.pending = some p) (hid : p.id = n) :
+    ∃ pub, ackO st i n = ((ackO st i n).1, AckRes.ok pub) := by
+  unfold ackO
+  simp only [hp, hid, ne_eq, not_true_eq_false, if_false]
+  split <;> (unfold finish; split <;> exact ⟨_, rfl⟩)
+
+/-- one barrier at an operator whose record (existing or about to be created) waits for `T ∋ x` -/
+theorem barrier_step (s : St) (i x n : Nat) (T : List Nat) (hd : (s.procs i).deployed = true)
+    (hin : (s.procs i).inflight = some (n, T) ∨ ((s.procs i).inflight = none ∧ (s.procs i).srcs = T))
+    (hx : x ∈ T) : barrier s i x n = register s i x n n T := by
+  have hc : T.contains x = true := by simpa using hx
+  have hne : T.isEmpty = false := by cases T <;> simp_all
+  unfold barrier
+  rcases hin with h | ⟨h, hs⟩
+  · simp [hd, h, parked, reclose, hx, hne]
+  · simp [hd, h, hs, parked, reclose]
+
+/-- all barriers of checkpoint `n` arrive at operator `i` -/
+theorem run_bar_all (n i : Nat) : ∀ (T : List Nat) (s : St) (p : Pending), T ≠ [] → T.Nodup →
+    (s.procs i).deployed = true →
+    ((s.procs i).inflight = some (n, T) ∨ ((s.procs i).inflight = none ∧ (s.procs i).srcs = T)) →
+    s.store.pending = some p → p.id = n →
+    (run s (T.map fun x => Act.bar i x n)).1 =
+      { s with store := (ackO s.store i n).1, procs := setProc s.procs i { (s.procs i) with inflight := none } } := by
+  intro T
+  induction T with
+  | nil => intro s p h; exact absurd rfl h
+  | cons x T ih =>
+    intro s p _ hnd hd hin hp hid
+    simp only [List.map_cons, run]
+    have hb : step s (Act.bar i x n) = register s i x n n (x :: T) := by
+      simp only [step]; exact barrier_step s i x n (x :: T) hd hin (List.mem_cons_self ..)
+    rw [hb]
+    have hf : (x :: T).filter (· ≠ x) = T := filter_ne_head x T hnd
+    unfold register
+    simp only [ne_eq, not_true_eq_false, if_false, hf]
+    cases T with
+    | nil =>
+      obtain ⟨pub, hok⟩ := ackO_ok s.store i n p hp hid
+      simp only [List.isEmpty_nil, if_true, List.map_nil, run]
+      rw [hok]
+    | cons y T' =>
+      simp only [List.isEmpty_cons, Bool.false_eq_true, if_false]
+      have hnd' : (y :: T').Nodup := (List.nodup_cons.mp hnd).2
+      have h1 : setProc s.procs i { (s.procs i) with inflight := some (n, y :: T') } i =
+          { (s.procs i) with inflight := some (n, y :: T') } := setProc_self _ _ _
+      refine (ih { s with procs := setProc s.procs i { (s.procs i) with inflight := some (n, y :: T') } } p (by simp) hnd'
+        (by show (setProc s.procs i _ i).deployed = true; rw [h1]; exact hd)
+        (Or.inl (by show (setProc s.procs i _ i).inflight = _; rw [h1])) hp hid).trans ?_
+      simp only [setProc_setProc, setProc_self]
+
+/-- every operator of the assembly aligns checkpoint `n`; the last acknowledgement publishes it -/
+theorem run_ops_all (n : Nat) (S : List Nat) (hS : S ≠ []) (hSn : S.Nodup) : ∀ (O : List Nat) (s : St) (p : Pending),
+    O ≠ [] → O.Nodup → s.store.pending = some p → p.id = n → p.waitOps = O → p.waitSrs = [] →
+    (∀ i ∈ O, i ∈ p.expOps) →
+    (∀ i ∈ O, (s.procs i).deployed = true ∧ (s.procs i).srcs = S ∧ (s.procs i).inflight = none) →
+    ((run s (O.flatMap fun i => S.map fun x => Act.bar i x n)).1.store.current = some n ∧
+     (run s (O.flatMap fun i => S.map fun x => Act.bar i x n)).1.store.pending = none ∧
+     (run s (O.flatMap fun i => S.map fun x => Act.bar i x n)).1.store.counter = s.store.counter ∧
+     (run s (O.flatMap fun i => S.map fun x => Act.bar i x n)).1.status = s.status ∧
+     (run s (O.flatMap fun i => S.map fun x => Act.bar i x n)).1.ticker = s.ticker ∧
+     (∀ i ∈ O, ((run s (O.flatMap fun i => S.map fun x => Act.bar i x n)).1.procs i).inflight = none) ∧
+     (∀ j, j ∉ O → (run s (O.flatMap fun i => S.map fun x => Act.bar i x n)).1.procs j = s.procs j)) := by
+  intro O
+  induction O with
+  | nil => intro s p h; exact absurd rfl h
+  | cons i O ih =>
+    intro s p _ hnd hp hid hwo hws hexp hproc
+    have hi := hproc i (List.mem_cons_self ..)
+    have hiO : i ∉ O := (List.nodup_cons.mp hnd).1
+    simp only [List.flatMap_cons]
+    rw [run_fst_append]
+    rw [run_bar_all n i S s p hS hSn hi.1 (Or.inr ⟨hi.2.2, hi.2.1⟩) hp hid]
+    -- the acknowledgement of operator `i`
+    have hc : p.expOps.contains i = true := by simpa using hexp i (List.mem_cons_self ..)
+    have hfil : p.waitOps.filter (· ≠ i) = O := by rw [hwo]; exact filter_ne_head i O hnd
+    have hack : (ackO s.store i n).1 = (finish s.store { p with waitOps := O }).1 := by
+      unfold ackO
+      simp only [hp, hid, ne_eq, not_true_eq_false, if_false, hc, if_true, hfil]
+    cases O with
+    | nil =>
+      have hfin : (finish s.store { p with waitOps := [] }).1 = { s.store with pending := none, current := some p.id } := by
+        simp [finish, hws]
+      rw [hack, hfin]
+      simp only [List.flatMap_nil, run]
+      refine ⟨by simp [hid], by trivial, by trivial, by trivial, by trivial, ?_, ?_⟩
+      · intro j hj
+        have : j = i := by simpa using hj
+        subst this; simp [setProc_self]
+      · intro j hj
+        have : j ≠ i := by simpa using hj
+        simp [setProc_other _ _ _ _ this]
+    | cons k O' =>
+      have hfin : (finish s.store { p with waitOps := k :: O' }).1 =
+          { s.store with pending := some { p with waitOps := k :: O' } } := by
+        simp [finish]
+      rw [hack, hfin]
+      have hnd' : (k :: O').Nodup := (List.nodup_cons.mp hnd).2
+      obtain ⟨r1, r2, r3, r4, r5, r6, r7⟩ := ih
+        { s with store := { s.store with pending := some { p with waitOps := k :: O' } },
+                 procs := setProc s.procs i { (s.procs i) with inflight := none } }
+        { p with waitOps := k :: O' } (by simp) hnd' rfl hid rfl hws
+        (fun j hj => hexp j (List.mem_cons_of_mem _ hj))
+        (by
+          intro j hj
+          have hne : j ≠ i := fun e => hiO (e ▸ hj)
+          show (setProc s.procs i _ j).deployed = true ∧ (setProc s.procs i _ j).srcs = S ∧ (setProc s.procs i _ j).inflight = none
+          rw [setProc_other _ _ _ _ hne]
+          exact hproc j (List.mem_cons_of_mem _ hj))
+      refine ⟨r1, r2, r3, r4, r5, ?_, ?_⟩
+      · intro j hj
+        rcases List.mem_cons.mp hj with e | hj'
+        · subst e
+          rw [r7 j hiO]
+          show (setProc s.procs j _ j).inflight = none
+          rw [setProc_self]
+        · exact r6 j hj'
+      · intro j hj
+        have hj1 : j ≠ i := fun e => hj (e ▸ List.mem_cons_self ..)
+        have hj2 : j ∉ k :: O' := fun h => hj (List.mem_cons_of_mem _ h)
+        rw [r7 j hj2]
+        show setProc s.procs i _ j = s.procs j
+        exact setProc_other _ _ _ _ hj1
+
+/-- bounded progress: one round of the current assembly publishes a new checkpoint -/
+theorem progress {s : St} (h : Inv s) (hrun : s.status = .running) (hp : s.store.pending = none)
+    (hrec : ∀ i ∈ s.asmOps, (s.procs i).inflight = none) (hw : 0 < s.w) :
+    (run s (progressActs s)).1.store.current = some (s.store.counter + 1) ∧
+    (run s (progressActs s)).1.store.pending = none ∧
+    (run s (progressActs s)).1.status = .running ∧ (run s (progressActs s)).1.ticker = true ∧
+    (∀ i ∈ s.asmOps, ((run s (progressActs s)).1.procs i).inflight = none) := by
+  have ht : s.ticker = true := h.tickRun.mpr hrun
+  obtain ⟨lo, ls, ndo, nds⟩ := h.asmShape (Or.inr hrun)
+  have hO : s.asmOps ≠ [] := by intro e; rw [e] at lo; simp at lo; omega
+  have hS : s.asmSrs ≠ [] := by intro e; rw [e] at ls; simp at ls; omega
+  have hpa := h.procAsm hrun
+  let n := s.store.counter + 1
+  let p0 : Pending := { id := n, expOps := s.asmOps, expSrs := s.asmSrs, waitOps := s.asmOps, waitSrs := s.asmSrs }
+  let s0 : St := { s with store := { counter := n, pending := some p0, current := s.store.current } }
+  have htick : (step s .tick).1 = s0 := by
+    simp only [step]
+    rw [if_neg (by simp [ht])]
+    simp only [hp]
+    rfl
+  unfold progressActs
+  simp only [run]
+  rw [htick, run_fst_append]
+  rw [run_ackS_all n s.asmSrs s0 p0 rfl rfl (fun x hx => hx) hO]
+  have hfil : p0.waitSrs.filter (fun y => !s.asmSrs.contains y) = [] := by
+    apply List.filter_eq_nil_iff.mpr
+    intro y hy; simpa using hy
+  rw [hfil]
+  obtain ⟨r1, r2, _, r4, r5, r6, _⟩ := run_ops_all n s.asmSrs hS nds s.asmOps
+    { s0 with store := { s0.store with pending := some { p0 with waitSrs := [] } } } { p0 with waitSrs := [] }
+    hO ndo rfl rfl rfl rfl (fun i hi => hi)
+    (fun i hi => ⟨(hpa i hi).1, (hpa i hi).2, hrec i hi⟩)
+  exact ⟨r1, r2, r4.trans hrun, r5.trans ht, r6⟩
 
 end Rxn.JobFsm
